@@ -549,7 +549,8 @@ fn generate(rng: &mut Rng, level: u8) -> Generated {
             let find = |r: u32| e.available_modules.iter().find(|m| m.reference == Some(r)).cloned();
             let (text, allowed): (String, Vec<Arc<Module>>) = if rng.bool() {
                 let a = rng.below(20) as u32;
-                let b = a + rng.below(25) as u32;
+                // (rarely -- the library spends about half a second on such a range -- up to the largest module reference there is)
+                let b = if rng.chance(1, 400) { 65535 } else { a + rng.below(25) as u32 };
                 (format!("{}{}-{}{}", lex.num(a as u64), lex.ws(), lex.ws(), lex.num(b as u64)), (a..=b).filter_map(find).collect())
             } else {
                 let mut v: Vec<u32> = (0..1 + rng.usize(4)).map(|_| if rng.chance(3, 4) { *rng.pick(&used_refs) } else { rng.below(40) as u32 }).collect();
@@ -739,7 +740,11 @@ fn mutate(rng: &mut Rng, text: &str) -> String {
             5 => {
                 // numeric extremes
                 let big = *rng.pick(&["4294967296", "99999999999999999999", "-1", "0xFFFFFFFFF", "256", "255", "65536", "65535", "0xFFFF", "4294967295", "0x", "1.5", "-0"]);
-                if let Some(s) = line.find(|c: char| c.is_ascii_digit()) {
+                // (any of the numbers of the line: the last one of a slot definition is the end of a range)
+                let b = line.as_bytes();
+                let starts: Vec<usize> = (0..b.len()).filter(|i| b[*i].is_ascii_digit() && (*i == 0 || !b[*i - 1].is_ascii_alphanumeric())).collect();
+                if !starts.is_empty() {
+                    let s = *rng.pick(&starts);
                     let e = line[s..].find(|c: char| !c.is_ascii_alphanumeric()).map(|k| s + k).unwrap_or(line.len());
                     format!("{}{}{}", &line[..s], big, &line[e..])
                 } else {
